@@ -223,6 +223,9 @@ func (n *SimNet) ResetIdleConns() int {
 	}
 	n.stats["idle-conn-reset"] += len(conns) / 2
 	n.mu.Unlock()
+	for i := 0; i < len(conns)/2; i++ {
+		sim.Count("fault:idle-conn-reset")
+	}
 	for _, c := range conns {
 		c.Close()
 	}
